@@ -26,6 +26,8 @@ for d in sorted(glob.glob('/verif/seeded/*/')):
         "checks_run": vr.get('checks', []),
         "detected_by": [c['check'] for c in detected],
     }
+    try: meta.update(json.load(open(d + 'note.json')))
+    except Exception: pass
     json.dump(meta, open(d + 'meta.json', 'w'), indent=1)
     ok = all(meta['confirmed'][k] for k in ('builds', 'repository_suite_passes_with_patch', 'demo_passes_without_patch', 'demo_fails_with_patch'))
     print(f"{name:10s} valid={ok} detected_by={meta['detected_by']}")
